@@ -13,6 +13,7 @@ def obligations(ctx):
         for ev in lx.EVALS:
             for K in range(0, Kmax + 1):
                 obs.append(ParserOb('C03', ev, K, oc=oc))
+            obs += call_templates('C03', ev, oc, tag)
             # tokenizer side: unknown characters and names without `(` give no token (every string of 0..2 characters, all keywords)
             for k in (0, 1, 2):
                 obs.append(full_alphabet('C03', ev, k, oc, tag))
